@@ -123,6 +123,22 @@ class IntStr(_Sym):
         self.v = v
 
 
+class SymFmt(_Sym):
+    """a formatted string with symbolic holes: list of str / symbolic values, in order"""
+
+    def __init__(self, parts):
+        self.parts = list(parts)
+
+    def __add__(self, other):
+        return SymFmt(self.parts + (other.parts if isinstance(other, SymFmt) else [other]))
+
+    def __radd__(self, other):
+        return SymFmt([other] + self.parts)
+
+    def symbols(self):
+        return [p for p in self.parts if isinstance(p, (IntV, RatV))]
+
+
 def _sym(v):
     return isinstance(v, (IntV, RatV))
 
@@ -416,6 +432,8 @@ class Evaluator:
         return out
 
     def binop(self, op, a, b, cons):
+        if isinstance(op, ast.Add) and (isinstance(a, SymFmt) or isinstance(b, SymFmt)):
+            return [(a + b if isinstance(a, SymFmt) else b.__radd__(a), cons)]
         if not _sym(a) and not _sym(b):
             import operator
             f = {ast.Add: operator.add, ast.Sub: operator.sub, ast.Mult: operator.mul, ast.Div: operator.truediv,
@@ -620,6 +638,13 @@ class Evaluator:
 
     def call(self, f, args, kws, cons):
         ctx = self.ctx
+        f0 = f.__func__ if isinstance(f, types.MethodType) else f
+        try:
+            if f0 in self.stubs.get("__native__", ()):
+                # declared not to touch symbolic values (e.g. text layout of a caption whose times are symbolic)
+                return [(f(*args, **kws), cons)]
+        except TypeError:
+            pass
         try:
             stub = self.stubs.get(f)
         except TypeError:
@@ -1013,20 +1038,35 @@ class Evaluator:
         return alts
 
     def ev_JoinedStr(self, node, env, cons):
-        alts = [("", cons)]
+        alts = [([], cons)]
         for part in node.values:
             if isinstance(part, ast.Constant):
-                alts = [(s + part.value, c) for s, c in alts]
+                alts = [(ps + [part.value], c) for ps, c in alts]
             else:
                 nxt = []
-                for s_, c in alts:
+                for ps, c in alts:
                     for v, c2 in self.ev(part.value, env, c):
-                        if _has_sym(v, 1):
-                            nxt.append((s_ + "<symbolic>", c2))
+                        if isinstance(v, SymFmt):
+                            nxt.append((ps + v.parts, c2))
+                        elif _sym(v):
+                            nxt.append((ps + [v], c2))
+                        elif _has_sym(v, 1):
+                            nxt.append((ps + ["<object with symbolic fields>"], c2))
                         else:
-                            nxt.append((s_ + format(v), c2))
+                            spec = ""
+                            if part.format_spec is not None:
+                                (spec, _), = self.ev(part.format_spec, env, c2)
+                                if isinstance(spec, SymFmt):
+                                    raise Unsupported("symbolic format spec")
+                            nxt.append((ps + [format(v, spec)], c2))
                 alts = nxt
-        return alts
+        out = []
+        for ps, c in alts:
+            if any(not isinstance(p, str) for p in ps):
+                out.append((SymFmt(ps), c))
+            else:
+                out.append(("".join(ps), c))
+        return out
 
 
 def function_ast(fn):
